@@ -407,6 +407,13 @@ def families(tier='quick', seed=0):
                                                         'cond': ('or', ('or', ('and', ('id', 'A'), ('cmp', '==', ('int', 'g'), ('int', 'k'))), ('id', 'B')), ('id', 'C'))})
     add('matrix', 'row with unshared field', {'idents': {'A': M((K('f'), S('a*')), (K('h'), S('b'))), 'B': M((K('g'), ('i', 1))), 'C': M((K('g'), ('i', 2)))},
                                              'cond': ('or', ('or', ('and', ('id', 'A'), ('cmp', '==', ('int', 'g'), ('ci', 3))), ('id', 'B')), ('id', 'C'))})
+    # groups of one kind joined by the other operator: an or of two and-groups, an and of two or-groups (must not be spliced)
+    add('shake', 'A or B two maps', {'idents': {'A': M((K('f'), S('a')), (K('g'), S('b'))), 'B': M((K('h'), S('c')), (K('k'), S('d')))}, 'cond': ('or', ('id', 'A'), ('id', 'B'))})
+    add('shake', 'A and B two seqs', {'idents': {'A': ('seq', [M((K('f'), S('a'))), M((K('g'), S('b')))]), 'B': ('seq', [M((K('h'), S('c'))), M((K('k'), S('d')))])},
+                                      'cond': ('and', ('id', 'A'), ('id', 'B'))})
+    abc = {n: M((K(f), S(v))) for n, f, v in (('A', 'f', 'a'), ('B', 'g', 'b'), ('C', 'h', 'c'), ('D', 'k', 'd'), ('E', 'm', 'e'), ('F', 'n', 'f'))}
+    add('shake', '(A and B and C) or (D and E and F)', {'idents': abc, 'cond': ('or', ('and', ('and', ('id', 'A'), ('id', 'B')), ('id', 'C')), ('and', ('and', ('id', 'D'), ('id', 'E')), ('id', 'F')))})
+    add('shake', '(A or B or C) and (D or E or F)', {'idents': abc, 'cond': ('and', ('or', ('or', ('id', 'A'), ('id', 'B')), ('id', 'C')), ('or', ('or', ('id', 'D'), ('id', 'E')), ('id', 'F')))})
     # one text under two relations in one or-group (identifiers, a sequence), also case-insensitively
     add('shake', 'A or B or C one text two kinds', {'idents': {'A': M((K('f'), S('ab*'))), 'B': M((K('f'), S('*ab'))), 'C': M((K('g'), S('x')))},
                                                     'cond': ('or', ('or', ('id', 'A'), ('id', 'B')), ('id', 'C'))})
@@ -419,6 +426,9 @@ def families(tier='quick', seed=0):
     add('modifier', 'multi-word keys', {'idents': {'A': M((K('Command Line'), S('a*')), (K('Event ID', 'str'), S('4*')))}, 'cond': ('id', 'A')})
     add('modifier', 'all(multi-word key)', {'idents': {'A': M((K('Command Line', 'all'), L(S('a*'), S('*b'))))}, 'cond': ('id', 'A')})
     add('modifier', 'int(multi-word key)', {'idents': {'A': M((K('Event ID', 'int'), ('i', 1)), (K('g'), S('a')))}, 'cond': ('id', 'A')})
+    # a negated key over a single comparison (not the complementary comparison: a value that is no number is not `<= 1`)
+    add('modifier', 'not(f) >1', {'idents': {'A': M((K('f', 'not'), S('>1')))}, 'cond': ('id', 'A')})
+    add('modifier', 'not(f) <=1.5 under not', {'idents': {'A': M((K('f', 'not'), S('<=1.5')), (K('g'), S('a')))}, 'cond': ('not', ('id', 'A'))})
     # the white space between the words of a field name is part of the name
     add('modifier', 'wide-space key', {'idents': {'A': M((K('a  b'), S('x*')), (K('g'), S('y')))}, 'cond': ('id', 'A')})
     add('modifier', 'str(wide-space key)', {'idents': {'A': M((K('a  b', 'str'), S('4*')))}, 'cond': ('id', 'A')})
@@ -500,7 +510,8 @@ MUST = {'single/"a\'', 'single/i\'a"', 'single/"',
         'list-mixed/*,>1', 'list-mixed/>=1,<=5', 'quant-short/all:>=1,<=5', 'modifier/str(f) float constant',
         'regex/i?^\\D+$', 'regex/i?\\Sa', 'modifier/{not(f), not(g), h}',
         'modifier/multi-word keys', 'modifier/all(multi-word key)', 'modifier/int(multi-word key)',
-        'modifier/wide-space key', 'modifier/str(wide-space key)', 'modifier/number-word key 2.0', 'modifier/number-word key 007', 'scalar/u64max', 'scalar/i64max+1', 'single/ a', 'single/a ', 'single/ a*', 'regex-rewrite/of2 twins', 'regex-rewrite/of2 twins+1', 'regex-rewrite/all twins', 'regex-rewrite/i?^ks', 'regex-rewrite/i?ks$',
+        'modifier/wide-space key', 'modifier/str(wide-space key)', 'modifier/number-word key 2.0', 'modifier/number-word key 007', 'scalar/u64max', 'scalar/i64max+1', 'single/ a', 'single/a ', 'single/ a*', 'shake/A or B two maps', 'shake/A and B two seqs', 'shake/(A and B and C) or (D and E and F)', 'shake/(A or B or C) and (D or E or F)',
+        'modifier/not(f) >1', 'modifier/not(f) <=1.5 under not', 'regex-rewrite/of2 twins', 'regex-rewrite/of2 twins+1', 'regex-rewrite/all twins', 'regex-rewrite/i?^ks', 'regex-rewrite/i?ks$',
         'shake/A or B or C one text two kinds', 'shake/seq one text two kinds', 'shake/seq one text two kinds i', 'quant-ident/all(tabled)', 'quant-ident/of(tabled,2)', 'quant-ident/all(part-tabled)', 'quant-ident/of(part-tabled,2)'}
 
 
